@@ -84,6 +84,27 @@ func (v *Verifier) buildQuery(o *Obligation, models bool) (string, []*Term) {
 	}
 	_, axioms := v.lib.prelude(asserts, o.Opaque, o.Fuel)
 	asserts = append(asserts, axioms...)
+	// theory lemmas bridging bit-vector and integer arithmetic (two rounds)
+	for round := 0; round < 2; round++ {
+		bf := bridgeFacts(asserts)
+		if len(bf) == 0 {
+			break
+		}
+		seen := map[*Term]bool{}
+		for _, a := range asserts {
+			seen[a] = true
+		}
+		n := 0
+		for _, f := range bf {
+			if !seen[f] {
+				asserts = append(asserts, f)
+				n++
+			}
+		}
+		if n == 0 {
+			break
+		}
+	}
 	pre, _ := v.lib.preludeOnly(asserts, o.Opaque)
 	var gv []*Term
 	if models {
@@ -98,8 +119,21 @@ func (v *Verifier) buildQuery(o *Obligation, models bool) (string, []*Term) {
 		}
 	}
 	sc := &Script{Prelude: []string{pre}, Asserts: asserts, GetVals: gv}
-	return sc.Render("ALL", models), gv
+	text := sc.Render("ALL", models)
+	lastAbs = ""
+	if strings.Contains(text, "(bvmul ") || strings.Contains(text, "(bv2nat ") || strings.Contains(text, "int2bv ") {
+		printAbstractMul = true
+		absDecls = map[string]string{}
+		pre2, _ := v.lib.preludeOnly(asserts, o.Opaque)
+		sc2 := &Script{Prelude: []string{pre2}, Asserts: asserts}
+		lastAbs = sc2.Render("ALL", false)
+		printAbstractMul = false
+	}
+	return text, gv
 }
+
+// lastAbs: the multiplication-abstracted rendering of the query built last (set under the build lock).
+var lastAbs string
 
 func (lib *SpecLib) preludeOnly(terms []*Term, opaque map[string]bool) (string, []*Term) {
 	needed := map[string]bool{}
@@ -258,11 +292,12 @@ func (v *Verifier) dischargeLocked(o *Obligation, timeoutS int, needTwo bool, mu
 	}
 	mu.Lock()
 	q, gv := v.buildQuery(o, true)
+	abs := lastAbs
 	mu.Unlock()
-	return v.solveText(o, q, gv, timeoutS, needTwo)
+	return v.solveText(o, q, abs, gv, timeoutS, needTwo)
 }
 
-func (v *Verifier) solveText(o *Obligation, q string, gv []*Term, timeoutS int, needTwo bool) *Result {
+func (v *Verifier) solveText(o *Obligation, q string, qAbs string, gv []*Term, timeoutS int, needTwo bool) *Result {
 	if o.Cover {
 		// vacuity guards are best-effort: only a conclusive `unsat` is an alarm
 		timeoutS = 3
@@ -283,12 +318,34 @@ func (v *Verifier) solveText(o *Obligation, q string, gv []*Term, timeoutS int, 
 		dur    float64
 	}
 	ss := solvers(timeoutS)
-	ch := make(chan ans, len(ss))
+	nproc := len(ss)
+	if qAbs != "" && !o.Cover {
+		nproc += 2
+	}
+	ch := make(chan ans, nproc)
 	for _, s := range ss {
 		go func(s solverSpec) {
 			st, out, d := runSolver(ctx, s, file, timeoutS)
 			ch <- ans{s, st, out, d}
 		}(s)
+	}
+	if qAbs != "" && !o.Cover {
+		// extra portfolio members on the weakened query (multiplication uninterpreted): only `unsat` counts
+		afile := strings.TrimSuffix(file, ".smt2") + "-absmul.smt2"
+		os.WriteFile(afile, []byte(qAbs), 0o644)
+		if os.Getenv("GOVC_KEEP") == "" {
+			defer os.Remove(afile)
+		}
+		for _, s := range []solverSpec{ss[0], ss[1]} {
+			s.name += "+abs"
+			go func(s solverSpec) {
+				st, out, d := runSolver(ctx, s, afile, timeoutS)
+				if st == "sat" || st == "unknown" {
+					st = "inconclusive"
+				}
+				ch <- ans{s, st, out, d}
+			}(s)
+		}
 	}
 	var outs []string
 	okBy := []string{}
@@ -296,7 +353,7 @@ func (v *Verifier) solveText(o *Obligation, q string, gv []*Term, timeoutS int, 
 	if o.Cover {
 		want, bad = "sat", "unsat"
 	}
-	for i := 0; i < len(ss); i++ {
+	for i := 0; i < nproc; i++ {
 		a := <-ch
 		outs = append(outs, fmt.Sprintf("[%s %s %.2fs] %s", a.s.name, a.status, a.dur, firstLines(a.out, 2)))
 		if a.status == want {
